@@ -7,7 +7,9 @@
 mod c06;
 mod c08;
 mod c10;
+mod c11;
 mod c12;
+mod c14;
 mod c16;
 mod c19;
 mod cov;
@@ -18,6 +20,7 @@ mod lanes;
 mod model;
 mod mon;
 mod parse;
+mod refhdr;
 mod rng;
 mod sched;
 mod snap;
